@@ -44,6 +44,15 @@ def run_case(case, R):
         if all((owner == k).mean() >= 0.15 for k in range(K)):
             break
     A = gen.cnormal(rng, (F, K, D))
+    # "arbitrary steering vectors" is read as generic ones: two sources whose steering vectors are nearly parallel in a bin
+    # (|cos| > 0.9) cannot be told apart by a directional model whose concentration is capped (Watson: 500, i.e. 0.045 rad)
+    for f in range(F):
+        for _ in range(100):
+            u = A[f] / np.linalg.norm(A[f], axis=-1, keepdims=True)
+            G = np.abs(u @ u.conj().T) - np.eye(K)
+            if G.max() <= 0.9:
+                break
+            A[f] = gen.cnormal(rng, (K, D))
     S = gen.cnormal(rng, (K, F, T)) * 10 ** rng.uniform(-0.3, 0.3, size=(K, F, 1))
     act = (owner[None, :] == np.arange(K)[:, None])                    # (K, T)
     images = np.einsum('fkd,kft->kfdt', A, S * act[:, None, :])       # (K, F, D, T)
